@@ -411,7 +411,8 @@ def check_c16(tier):
                     "repeat_stable": True}, None
         d = json.load(open(out))
         return {"ev": "Observe", "lib": li, "config": {"threads": t, "route": r, "order": o}, "digests": d["digests"],
-                "repeat_stable": bool(d["full"].get("search_repeat_stable", True))}, out
+                "repeat_stable": bool(d["full"].get("search_repeat_stable", True)),
+                "resend_changes_symbols": bool(d.get("resend_changes_symbols", False))}, out
 
     events = []
     with concurrent.futures.ThreadPoolExecutor(max_workers=6) as ex:
@@ -432,7 +433,7 @@ def check_c16(tier):
     res.cov["transitions"] = r["generated"]
     for v in prints(r["out"], "VERDICT"):
         e = events[v["line"] - 1]
-        p = save_replay(work, "C16_line%d" % v["line"], {"property": pid, "reasons": v["bad"], "library": {"seed": libs[e["lib"]][0], "notes": libs[e["lib"]][1]},
+        p = save_replay(work, "C16_line%d" % v["line"], {"property": pid, "reasons": v["bad"], "library": ({"seed": libs[e["lib"]][0], "notes": libs[e["lib"]][1]} if e["lib"] < len(libs) else {"seed": 1, "notes": 5, "tiny": True}),
                                                           "config": e["config"], "dump": e["dump"]})
         res.violation(p, json.dumps(v["bad"])[:300])
     for e in events:
